@@ -20,9 +20,10 @@ from .. import sysgen, sysinterp
 from ..framework import lean_driver, canon
 
 PROP = "C17"
-LEAN_TARGETS = ["Eliot.Properties.C17"]
+LEAN_TARGETS = ["Eliot.Properties.C17", "Eliot.Properties.C17Flat"]
 AUDIT = "Eliot/Audit/C17.lean"
 THEOREMS = [
+    "PM.C17.parser_builds_same_flat",  # the same against the parser as the code runs it (flat `_nodes` tasks)
     "PM.Testing.fromMessages_node", "PM.Testing.containsFields_eq_issuperset",
     "PM.C17.of_type_eq_parser_subtrees", "PM.C17.interleaving_concat", "PM.C17.of_type_concat",
     "PM.C17.parser_builds_same", "PM.C17.parser_task_same", "PM.C17.preorderActions_eq",
